@@ -225,6 +225,43 @@ pub fn check(t: &Trace<'_>, out: &mut CaseOut) -> bool {
             _ => {}
         }
     }
+    // ---- retransmissions must still decode to exactly what was requested
+    for msg in &m.msgs {
+        let op = &t.log.ops[msg.op];
+        for tx in msg.txs.iter().skip(1) {
+            if !t.conns[tx.conn].stream_ok {
+                continue;
+            }
+            let p = &w.conns[tx.conn].out.packets[tx.idx];
+            out.count("retransmissions_compared", 1);
+            let same = match (&t.log.steps[op.step], &p.pkt) {
+                (Step::Publish(spec), CPacket::Publish { topic, payload, qos, retain, props, .. }) => {
+                    let mut want_props: Vec<Prop> = spec.correlate.iter().map(|c| Prop::CorrelationData(c.clone())).collect();
+                    want_props.extend(spec.props.iter().cloned());
+                    *topic == spec.topic && *payload == spec.payload.bytes() && Some(*qos) == t.eff_qos(msg.op) && *retain == spec.retain && props_match(&want_props, props)
+                }
+                (Step::Subscribe(spec), CPacket::Subscribe { props, filters, .. }) => {
+                    let want: Vec<(String, u8)> = spec.filters.iter().map(|f| (f.filter.clone(), f.options_byte())).collect();
+                    *filters == want && props_match(&spec.props, props)
+                }
+                (Step::Unsubscribe(spec), CPacket::Unsubscribe { props, filters, .. }) => *filters == spec.filters && props_match(&spec.props, props),
+                _ => false,
+            };
+            if !same {
+                out.violations.push(viol("C09", format!("C09/retransmission-differs-from-request/{}", msg.kind), format!("op#{} id {}: what was retransmitted on conn {} does not decode to the request: {}", msg.op, msg.pid, tx.conn, trunc(&format!("{:?}", p.pkt), 200))));
+            }
+        }
+    }
+    // a stream that stops being parseable right after a retransmission began is the same defect
+    for ci in &t.conns {
+        let c = &w.conns[ci.idx];
+        if let Some((off, msg)) = &c.out.error {
+            let replay_started = ci.connack.as_ref().is_some_and(|k| k.0) && c.out.packets.len() >= 1 && ci.qos0_cancel_at.is_none() && !ci.write_zero;
+            if replay_started && m.msgs.iter().any(|x| x.ev_accept < ci.ev_begin && x.outstanding_at(ci.ev_begin)) {
+                out.violations.push(viol("C09", "C09/retransmission-undecodable", format!("conn {}: resumed connection with requests to replay, but its stream stops decoding at offset {}: {}", ci.idx, off, msg)));
+            }
+        }
+    }
     let _ = Ev::Watchdog;
     nontrivial
 }
